@@ -4,6 +4,11 @@ only by non-zero constants, no sqrt/libm) that computes, per node, an exponent k
 (round-to-nearest with an unbounded exponent range), from exponent bounds on the inputs.  Powers of two are
 representable and rounding is monotone, so rounding never raises such a bound.  Soundness: Lemmas/OverflowSound.lean;
 with the forward refinement theorem it turns "whenever no float node is non-finite" into a decidable check.
+
+The analysis is condition-aware to the extent the clamp / scaling idioms of the package need: inputs may carry a lower
+exponent (2^lo ≤ |x|), values known to be non-negative (absolute values, non-negative constants) are flagged, a comparison
+`<` / `>` whose outcome follows from the exponent bounds gets a known truth value, and a `select` on a known condition takes
+the bounds of the selected branch only.
 -/
 import FAVerif.IR.Prog
 import FAVerif.FP.Soft
@@ -11,12 +16,15 @@ import FAVerif.FP.Soft
 namespace FAVerif.Ovf
 open FAVerif.IR FAVerif.FP
 
-/-- per node: upper exponent (|v| ≤ 2^hi) and, for non-zero constants (and their negations / absolute values), a lower
-exponent (2^lo ≤ |v|) -/
+/-- per node: upper exponent (|v| ≤ 2^hi); for non-zero constants and bounded-below inputs (and their negations / absolute
+values) a lower exponent (2^lo ≤ |v|); `fin`: the value is (plus or minus) a finite constant of the format or a selection
+among such (≤ Lmax by itself); `nn`: the value is ≥ 0; `tv`: the known value of a boolean node -/
 structure B where
   hi : Int
   lo : Option Int := none
-  fin : Bool := false     -- the value is (plus or minus) a finite constant of the format or a selection among such: ≤ Lmax by itself
+  fin : Bool := false
+  nn : Bool := false
+  tv : Option Bool := none
   deriving DecidableEq, Repr
 
 def clamp (f : Fmt) (k : Int) : Int := max k f.emin
@@ -26,12 +34,28 @@ def argB (st : List B) (args : List Nat) (i : Nat) : Option B :=
   | some j => st[j]?
   | none => none
 
-def stepB (f : Fmt) (E : List Int) (st : List B) (n : Node) : Option B :=
+/-- exponent k with m·2^e ≤ 2^k (m ≠ 0): tight for powers of two -/
+def constHi (m : Nat) (e : Int) : Int :=
+  if m = 2 ^ (bitLen m - 1) then e + (bitLen m : Int) - 1 else e + bitLen m
+
+/-- `a < b` is known to be false: a ≥ 2^a.lo ≥ 2^b.hi ≥ b -/
+def ltFalse (a b : B) : Bool :=
+  a.nn && (match a.lo with | some kl => decide (b.hi ≤ kl) | none => false)
+
+/-- `a < b` is known to be true: a ≤ 2^a.hi < 2^b.lo ≤ b -/
+def ltTrue (a b : B) : Bool :=
+  b.nn && (match b.lo with | some kb => decide (a.hi < kb) | none => false)
+
+def ltTv (a b : B) : Option Bool :=
+  if ltFalse a b then some false else if ltTrue a b then some true else none
+
+def stepB (f : Fmt) (E : List Int) (EL : List (Option Int)) (st : List B) (n : Node) : Option B :=
   match n.op with
-  | .input => (E[n.imm]?).map fun k => { hi := clamp f k }
+  | .input => (E[n.imm]?).map fun k => { hi := clamp f k, lo := (EL[n.imm]?).join }
   | .const =>
     match decode f n.imm with
-    | .fin _ m e => if m = 0 then some { hi := f.emin, fin := true } else some { hi := clamp f (e + bitLen m), lo := some (e + (bitLen m : Int) - 1), fin := true }
+    | .fin s m e => if m = 0 then some { hi := f.emin, fin := true, nn := true }
+                    else some { hi := clamp f (constHi m e), lo := some (e + (bitLen m : Int) - 1), fin := true, nn := !s }
     | _ => none
   | .bconst => if n.imm ≤ 1 then some { hi := clamp f 0 } else none
   | .add | .sub =>
@@ -46,35 +70,52 @@ def stepB (f : Fmt) (E : List Int) (st : List B) (n : Node) : Option B :=
     match argB st n.args 0, argB st n.args 1 with
     | some a, some b => (b.lo).map fun kl => { hi := clamp f (a.hi - kl) }
     | _, _ => none
-  | .neg | .abs => (argB st n.args 0).map fun a => { hi := a.hi, lo := a.lo, fin := a.fin }
+  | .neg => (argB st n.args 0).map fun a => { hi := a.hi, lo := a.lo, fin := a.fin }
+  | .abs => (argB st n.args 0).map fun a => { hi := a.hi, lo := a.lo, fin := a.fin, nn := true }
   | .pymax | .pymin =>
     match argB st n.args 0, argB st n.args 1 with
     | some a, some b => some { hi := max a.hi b.hi, fin := a.fin && b.fin }
     | _, _ => none
-  | .lt | .le | .gt | .ge | .eq | .ne | .and | .or =>
+  | .lt =>
+    match argB st n.args 0, argB st n.args 1 with
+    | some a, some b => some { hi := clamp f 0, tv := ltTv a b }
+    | _, _ => none
+  | .gt =>
+    match argB st n.args 0, argB st n.args 1 with
+    | some a, some b => some { hi := clamp f 0, tv := ltTv b a }
+    | _, _ => none
+  | .le | .ge | .eq | .ne | .and | .or =>
     match argB st n.args 0, argB st n.args 1 with
     | some _, some _ => some { hi := clamp f 0 }
     | _, _ => none
   | .not | .isfinite => (argB st n.args 0).map fun _ => { hi := clamp f 0 }
   | .select =>
     match argB st n.args 0, argB st n.args 1, argB st n.args 2 with
-    | some _, some a, some b => some { hi := max a.hi b.hi, fin := a.fin && b.fin }
+    | some c, some a, some b =>
+      match c.tv with
+      | some true => some { hi := a.hi, lo := a.lo, fin := a.fin, nn := a.nn }
+      | some false => some { hi := b.hi, lo := b.lo, fin := b.fin, nn := b.nn }
+      | none => some { hi := max a.hi b.hi, fin := a.fin && b.fin }
     | _, _, _ => none
   | _ => none
 
-def boundsOf (f : Fmt) (E : List Int) : List Node → List B → Option (List B)
+def boundsOfL (f : Fmt) (E : List Int) (EL : List (Option Int)) : List Node → List B → Option (List B)
   | [], st => some st
   | n :: ns, st => do
-    let b ← stepB f E st n
-    boundsOf f E ns (st ++ [b])
+    let b ← stepB f E EL st n
+    boundsOfL f E EL ns (st ++ [b])
 
 /-- largest exponent k with 2^k ≤ Lmax:  2^(emaxUlp + p − 1) -/
 def kmax (f : Fmt) : Int := f.emaxUlp + (f.p : Int) - 1
 
-/-- the whole check: the analysis succeeds and every node's bound is below the overflow threshold -/
-def overflowFree (f : Fmt) (E : List Int) (nodes : List Node) : Bool :=
-  match boundsOf f E nodes [] with
+/-- the whole check: the analysis succeeds and every node's bound is below the overflow threshold; `EL` gives optional
+lower exponents of the inputs -/
+def overflowFreeL (f : Fmt) (E : List Int) (EL : List (Option Int)) (nodes : List Node) : Bool :=
+  match boundsOfL f E EL nodes [] with
   | some st => st.all fun b => b.fin || decide (b.hi ≤ kmax f)
   | none => false
+
+/-- the check without lower bounds on the inputs -/
+def overflowFree (f : Fmt) (E : List Int) (nodes : List Node) : Bool := overflowFreeL f E [] nodes
 
 end FAVerif.Ovf
